@@ -31,9 +31,56 @@ func chanRecvFields(fn *ssa.Function) []FieldRef {
 					out = append(out, fr)
 				}
 			}
+		case *ssa.Call:
+			// a helper that reports whether a receive from its channel argument completed
+			if ch, ok := recvPredicateCall(x); ok {
+				if fr, _, ok := loadedField(ch); ok {
+					out = append(out, fr)
+				}
+			}
 		}
 	})
 	return out
+}
+
+// recvPredicateCall: call is a call of a function of the analysed package with one channel parameter and one bool result
+// that returns true only after a receive from that parameter completed (e.g. a non-blocking "is it closed" probe).
+// Returns the channel argument.
+func recvPredicateCall(call *ssa.Call) (ssa.Value, bool) {
+	f := helperCallee(call)
+	if f == nil || f.Signature.Results().Len() != 1 {
+		return nil, false
+	}
+	if b, ok := f.Signature.Results().At(0).Type().Underlying().(*types.Basic); !ok || b.Kind() != types.Bool {
+		return nil, false
+	}
+	var chP *ssa.Parameter
+	idx := -1
+	for i, p := range f.Params {
+		if _, isCh := p.Type().Underlying().(*types.Chan); isCh {
+			if chP != nil {
+				return nil, false
+			}
+			chP, idx = p, i
+		}
+	}
+	if chP == nil || idx >= len(call.Call.Args) {
+		return nil, false
+	}
+	okAll, n := true, 0
+	forEachReturnValue(f, 0, func(v ssa.Value, at ssa.Instruction) {
+		if isConstBool(v, false) {
+			return
+		}
+		n++
+		if !recvDominates(at, func(ch ssa.Value) bool { return stripConv(ch) == ssa.Value(chP) }) {
+			okAll = false
+		}
+	})
+	if !okAll || n == 0 {
+		return nil, false
+	}
+	return call.Call.Args[idx], true
 }
 
 // closeOfField: the close(ch) calls in fn whose channel is loaded from field fr.
@@ -52,22 +99,39 @@ func closesOfField(fn *ssa.Function, fr FieldRef) []*ssa.Call {
 // recvFromFieldDominates: every path to `in` passes a completed receive from the channel in field fr
 // (a select case on it, or a plain receive).
 func recvFromFieldDominates(in ssa.Instruction, fr FieldRef) bool {
-	if recvFromFieldDominates1(in, fr) {
+	return recvDominates(in, func(ch ssa.Value) bool {
+		f2, _, ok := loadedField(ch)
+		return ok && f2 == fr
+	})
+}
+
+// recvDominates: every path to `in` passes a completed receive from a channel accepted by match.
+func recvDominates(in ssa.Instruction, match func(ch ssa.Value) bool) bool {
+	if recvDominates1(in, match) {
 		return true
 	}
 	fn := in.Parent()
 	cuts := map[ssa.Instruction]bool{}
 	cutEdges := map[[2]*ssa.BasicBlock]bool{}
-	allInstrs(fn, func(x ssa.Instruction) {
+	allInstrsLocal(fn, func(x ssa.Instruction) {
 		switch y := x.(type) {
 		case *ssa.UnOp:
-			if y.Op == token.ARROW {
-				if f2, _, ok := loadedField(y.X); ok && f2 == fr {
-					cuts[x] = true
-				}
+			if y.Op == token.ARROW && match(y.X) {
+				cuts[x] = true
 			}
 		case *ssa.If:
-			// if (extract #0 of select) == k, with state k receiving from fr: the true edge means "received"
+			// true result of a receive-predicate helper
+			nf := normFact(EdgeFact{y.Cond, true})
+			if call, isCall := origin(nf.Cond).(*ssa.Call); isCall {
+				if ch, ok := recvPredicateCall(call); ok && match(ch) {
+					succ := y.Block().Succs[0]
+					if !nf.True {
+						succ = y.Block().Succs[1]
+					}
+					cutEdges[[2]*ssa.BasicBlock{y.Block(), succ}] = true
+				}
+			}
+			// if (extract #0 of select) == k, with state k receiving from the channel: the true edge means "received"
 			b, ok := y.Cond.(*ssa.BinOp)
 			if !ok || b.Op != token.EQL {
 				return
@@ -81,7 +145,7 @@ func recvFromFieldDominates(in ssa.Instruction, fr FieldRef) bool {
 			if !isSel || int(k) >= len(sel.States) || sel.States[k].Dir != types.RecvOnly {
 				return
 			}
-			if f2, _, ok := loadedField(sel.States[k].Chan); ok && f2 == fr {
+			if match(sel.States[k].Chan) {
 				cutEdges[[2]*ssa.BasicBlock{y.Block(), y.Block().Succs[0]}] = true
 			}
 		}
@@ -119,7 +183,7 @@ func recvFromFieldDominates(in ssa.Instruction, fr FieldRef) bool {
 	return true
 }
 
-func recvFromFieldDominates1(in ssa.Instruction, fr FieldRef) bool {
+func recvDominates1(in ssa.Instruction, match func(ch ssa.Value) bool) bool {
 	// (a) select case index fact
 	for _, f := range factsAt(in) {
 		x, op, y, ok := cmpFact(f)
@@ -133,18 +197,24 @@ func recvFromFieldDominates1(in ssa.Instruction, fr FieldRef) bool {
 		}
 		if sel, ok := ex.Tuple.(*ssa.Select); ok && int(k) < len(sel.States) {
 			st := sel.States[k]
-			if st.Dir == types.RecvOnly {
-				if f2, _, ok := loadedField(st.Chan); ok && f2 == fr {
-					return true
-				}
+			if st.Dir == types.RecvOnly && match(st.Chan) {
+				return true
+			}
+		}
+	}
+	// (a') true result of a receive-predicate helper
+	for _, f := range boolFactsAt(in) {
+		if call, isCall := f.V.(*ssa.Call); isCall && f.True {
+			if ch, ok := recvPredicateCall(call); ok && match(ch) {
+				return true
 			}
 		}
 	}
 	// (b) plain receive dominating
 	found := false
-	allInstrs(in.Parent(), func(x ssa.Instruction) {
+	allInstrsLocal(in.Parent(), func(x ssa.Instruction) {
 		if u, ok := x.(*ssa.UnOp); ok && u.Op == token.ARROW {
-			if f2, _, ok := loadedField(u.X); ok && f2 == fr && dominates(u, in) {
+			if match(u.X) && dominates(u, in) {
 				found = true
 			}
 		}
@@ -504,9 +574,14 @@ func ruleStatusFlow(c *Ctx, rule string) {
 			}
 			stored := false
 			if errVal != nil {
-				for _, r := range *errVal.Referrers() {
+				// stored directly, or returned by the private helper whose result is stored (every leaf considered)
+				for _, r := range *errCell.Referrers() {
 					if st, ok := r.(*ssa.Store); ok && st.Addr == ssa.Value(errCell) {
-						stored = true
+						for _, vc := range valueCases(st.Val, 0) {
+							if stripConv(vc.Val) == errVal {
+								stored = true
+							}
+						}
 					}
 				}
 			}
@@ -519,14 +594,22 @@ func ruleStatusFlow(c *Ctx, rule string) {
 			if !ok || st.Addr != ssa.Value(errCell) {
 				continue
 			}
+			okSrc := true
 			v := stripConv(st.Val)
-			okSrc := isNilConst(v)
-			if call, isCall := v.(*ssa.Call); isCall {
-				n := calleeName(call)
-				okSrc = strings.HasPrefix(n, "google.golang.org/grpc/status.") || staticCallee(call) == a.ServerSend || (staticCallee(call) == nil && !call.Call.IsInvoke())
-			}
-			if _, isEx := v.(*ssa.Extract); isEx {
-				okSrc = true
+			for _, vc := range valueCases(st.Val, 0) {
+				v = stripConv(vc.Val)
+				okLeaf := isNilConst(v)
+				if call, isCall := v.(*ssa.Call); isCall {
+					n := calleeName(call)
+					okLeaf = strings.HasPrefix(n, "google.golang.org/grpc/status.") || staticCallee(call) == a.ServerSend || (staticCallee(call) == nil && !call.Call.IsInvoke())
+				}
+				if _, isEx := v.(*ssa.Extract); isEx {
+					okLeaf = true
+				}
+				if !okLeaf {
+					okSrc = false
+					break
+				}
 			}
 			c.check(okSrc, rule, "error variable of "+w.Short(st.Parent())+": assigned from a handler, a send, or a status", w.At(st), desc(v), "the dispatch function's error variable is overwritten with "+desc(v))
 		}
@@ -629,16 +712,11 @@ func (c *Ctx) checkFinishMapping(rule string) {
 	errP := fn.Params[1]
 	type arm struct{ guard, val string }
 	var arms []arm
-	classify := func(v ssa.Value, pred *ssa.BasicBlock, blk *ssa.BasicBlock) {
+	classify := func(v ssa.Value, facts []EdgeFact) {
 		g := "else"
-		at := pred.Instrs[len(pred.Instrs)-1]
-		facts := factsAt(at)
-		if ef, has := edgeFact(pred, blk); has {
-			facts = append(facts, ef)
-		}
 		for _, f := range facts {
 			x, op, y, ok := cmpFact(f)
-			if !ok || op != token.EQL || stripConv(x) != ssa.Value(errP) {
+			if !ok || op != token.EQL || origin(x) != ssa.Value(errP) {
 				continue
 			}
 			if isNilConst(y) {
@@ -653,19 +731,19 @@ func (c *Ctx) checkFinishMapping(rule string) {
 		if call, ok := stripConv(v).(*ssa.Call); ok && calleeName(call) == "google.golang.org/grpc/status.Error" {
 			k, _ := constInt(call.Call.Args[0])
 			msg := desc(call.Call.Args[1])
-			if mc, isC := call.Call.Args[1].(*ssa.Call); isC && mc.Call.IsInvoke() && mc.Call.Method.Name() == "Error" && stripConv(mc.Call.Value) == ssa.Value(errP) {
+			if mc, isC := call.Call.Args[1].(*ssa.Call); isC && mc.Call.IsInvoke() && mc.Call.Method.Name() == "Error" && origin(mc.Call.Value) == ssa.Value(errP) {
 				msg = "err.Error()"
 			}
 			val = fmt.Sprintf("status.Error(code %d, %s)", k, msg)
 		}
-		if stripConv(v) == ssa.Value(errP) {
+		if origin(v) == ssa.Value(errP) {
 			val = "unchanged"
 		}
 		arms = append(arms, arm{g, val})
 	}
-	if phi, ok := ev.(*ssa.Phi); ok {
-		for i, e := range phi.Edges {
-			classify(e, phi.Block().Preds[i], phi.Block())
+	if cases := valueCases(ev, 0); ev != nil && len(cases) > 1 {
+		for _, vc := range cases {
+			classify(vc.Val, vc.Facts)
 		}
 	} else if ev != nil {
 		arms = append(arms, arm{"always", desc(ev)})
